@@ -105,7 +105,7 @@ theorem stdKey_eq_tkey (x : BitVec 32) : stdKey x = tkey x.toNat := by
     omega
 
 section Generic
-variable {α : Type} (key : α → Int) (gt : α → α → Bool) (val : α → Int)
+variable {α : Type} (key : α → Int) (gt : α → α → Bool) (val : α → Ext)
 
 /-- Sorted descending by `key`. -/
 def Desc (l : List α) : Prop := l.Pairwise (fun a b => key b ≤ key a)
@@ -607,10 +607,11 @@ theorem topKSeq_frozen (nan : α → Bool) (hn : ∀ a b, nan b = true → gt a 
 
 /-! ## `TopP` prefix loop -/
 
-/-- Sum of the exact values. -/
-def sumVal (l : List α) : Int := (l.map val).sum
+/-- The f32 running sum `((c + v₁) + v₂) + …` in `Ext`. -/
+def sumE (c : Ext) (l : List α) : Ext := l.foldl (fun a x => a.add (val x)) c
 
-theorem takeUntil_prefix (thr c : Int) (l : List α) : takeUntil val thr c l <+: l := by
+theorem takeUntil_prefix (thr : Option Int) (c : Ext) (l : List α) :
+    takeUntil val thr c l <+: l := by
   induction l generalizing c with
   | nil => simp [takeUntil]
   | cons x xs ih =>
@@ -619,45 +620,55 @@ theorem takeUntil_prefix (thr c : Int) (l : List α) : takeUntil val thr c l <+:
     · exact (List.prefix_cons_inj x).mpr (ih _)
     · exact List.nil_prefix
 
-theorem takeUntil_ne_nil (thr c : Int) (l : List α) (hc : c < thr) (hl : l ≠ []) :
-    takeUntil val thr c l ≠ [] := by
+theorem takeUntil_ne_nil (thr : Option Int) (c : Ext) (l : List α) (hc : c.lt thr = true)
+    (hl : l ≠ []) : takeUntil val thr c l ≠ [] := by
   cases l with
   | nil => exact absurd rfl hl
   | cons x xs => simp [takeUntil, hc]
 
-/-- If the loop stops before the end, the kept prefix reaches the threshold. -/
-theorem takeUntil_reaches (thr c : Int) (l : List α)
+/-- If the loop stops before the end, `cum < threshold` is false for the kept prefix's sum
+(it reached the threshold, or became NaN). -/
+theorem takeUntil_reaches (thr : Option Int) (c : Ext) (l : List α)
     (h : (takeUntil val thr c l).length < l.length) :
-    thr ≤ c + sumVal val (takeUntil val thr c l) := by
+    (sumE val c (takeUntil val thr c l)).lt thr = false := by
   induction l generalizing c with
   | nil => simp at h
   | cons x xs ih =>
     unfold takeUntil at h ⊢
-    split
-    · rename_i hc
-      simp only [hc, if_true, List.length_cons] at h
-      have := ih (c + val x) (by omega)
-      simp only [sumVal, List.map_cons, List.sum_cons] at this ⊢
-      omega
-    · simp only [sumVal, List.map_nil, List.sum_nil]; omega
+    cases hc : c.lt thr with
+    | true =>
+      simp only [hc, if_true, List.length_cons] at h ⊢
+      have := ih (c.add (val x)) (by omega)
+      simpa [sumE] using this
+    | false => simpa [sumE] using hc
 
-/-- Every strictly shorter prefix is below the threshold. -/
-theorem takeUntil_minimal (thr c : Int) (l : List α) (m : Nat)
-    (h : m < (takeUntil val thr c l).length) : c + sumVal val (l.take m) < thr := by
+/-- For every strictly shorter prefix `cum < threshold` still holds. -/
+theorem takeUntil_minimal (thr : Option Int) (c : Ext) (l : List α) (m : Nat)
+    (h : m < (takeUntil val thr c l).length) : (sumE val c (l.take m)).lt thr = true := by
   induction l generalizing c m with
   | nil => simp [takeUntil] at h
   | cons x xs ih =>
     unfold takeUntil at h
-    split at h
-    · rename_i hc
+    cases hc : c.lt thr with
+    | true =>
+      simp only [hc, if_true, List.length_cons] at h
       cases m with
-      | zero => simp [sumVal]; exact hc
+      | zero => simpa [sumE] using hc
       | succ m' =>
-        simp only [List.length_cons] at h
-        have := ih (c + val x) m' (by omega)
-        simp only [sumVal, List.take_succ_cons, List.map_cons, List.sum_cons] at this ⊢
-        omega
-    · simp at h
+        have := ih (c.add (val x)) m' (by omega)
+        simpa [sumE] using this
+    | false => simp [hc] at h
+
+/-- On finite values the `Ext` sum is the exact integer sum. -/
+theorem sumE_fin (iv : α → Int) (l : List α) (h : ∀ x ∈ l, val x = .fin (iv x)) (c : Int) :
+    sumE val (.fin c) l = .fin (c + (l.map iv).sum) := by
+  induction l generalizing c with
+  | nil => simp [sumE]
+  | cons x xs ih =>
+    have hx := h x (List.mem_cons_self)
+    have := ih (fun y hy => h y (List.mem_cons_of_mem _ hy)) (c + iv x)
+    simp only [sumE, List.foldl_cons, hx, Ext.add, List.map_cons, List.sum_cons] at this ⊢
+    rw [this]; congr 1; omega
 
 /-! ## `Chain` -/
 
